@@ -93,7 +93,7 @@ CHECKS = {
     "C03": dict(
         engine="mcx", category="model_checking", design="5/C03",
         technique="deviation-bounded exploration (<=1 network deviation) of every send program of <=2/3 steps from three start states (fresh, counters preset 5 below the 16-bit wrap, reduced 63-value ring that wraps within every history) on the real stack; monitor on every emitted datagram: per-key nonce table, reference AES-GCM decryption with the full 20-byte header as AAD, plaintext marker search",
-        text="384 (quick) / ~3500 (thorough) configurations x all single deviations (2.0e4 executions, 3.4e6 ticks quick): no two encrypted datagrams of a session share bytes 0-11; every datagram emitted by a keyed endpoint except SERVER_HELLO decrypts under the session key with the whole header authenticated; the application marker never appears on the wire. Thorough adds one honest 70000-frame history that really wraps the 16-bit counter.",
+        text="384 (quick) / ~3500 (thorough) configurations x all single deviations (2.0e4 executions, 3.4e6 ticks quick): no two encrypted datagrams of a session share bytes 0-11; every datagram emitted by a keyed endpoint except SERVER_HELLO decrypts under the session key with the whole header authenticated; the application marker never appears on the wire. Thorough adds one honest 140000-frame history that really wraps the 16-bit counter.",
         note="non-decreasing clock and at most one update per frame assumed (the statement's premises); the reduced ring is used for this monitor only, argument in the module docstring and DESIGN.md"),
     "C12": dict(
         engine="mcx", category="model_checking", design="5/C12",
